@@ -455,7 +455,106 @@ def _mk_reference(x):
     return tau, p, float(np.median(slopes)), flag
 
 
+def _c10_boundary_series():
+    """Series whose continuity-corrected |Z| is as close as possible to the two-sided 5 % critical value, on either side of it:
+    n steps with one tie group of t equal values and a prescribed S (reached from the sorted series by adjacent swaps of unequal
+    neighbours, -2 each). The 40 closest from above and from below among n <= 120."""
+    import scipy.stats as ss
+    zc = float(ss.norm.ppf(0.975))
+    cands = []
+    for n in range(8, 121):
+        for t in range(0, n - 1):
+            tt = t if t >= 2 else 0
+            if t == 1:
+                continue
+            var = (n * (n - 1) * (2 * n + 5) - tt * (tt - 1) * (2 * tt + 5)) / 18.0
+            smax = n * (n - 1) // 2 - tt * (tt - 1) // 2
+            s0 = int(math.floor(1 + zc * math.sqrt(var)))
+            for S in (s0 - 1, s0, s0 + 1, s0 + 2):
+                if S < 1 or S > smax or (smax - S) % 2:
+                    continue
+                cands.append(((S - 1) / math.sqrt(var) - zc, n, tt, S, smax))
+    above = sorted([c for c in cands if c[0] > 0])[:40]
+    below = sorted([c for c in cands if c[0] <= 0], key=lambda c: -c[0])[:40]
+    out = []
+    for dz, n, tt, S, smax in above + below:
+        vals = list(range(1, n - tt + 2)) if tt else list(range(1, n + 1))
+        if tt:
+            mid = len(vals) // 2
+            vals = vals[:mid] + [vals[mid]] * (tt - 1) + vals[mid:]
+        vals = sorted(vals)[:n]
+        cur = smax
+        i = 0
+        while cur > S:
+            # bubble the largest remaining element to the front, one adjacent swap of unequal neighbours at a time
+            moved = False
+            for i in range(len(vals) - 1):
+                if vals[i] < vals[i + 1]:
+                    vals[i], vals[i + 1] = vals[i + 1], vals[i]
+                    cur -= 2
+                    moved = True
+                    break
+            if not moved:
+                break
+        if cur == S:
+            out.append((vals, dz))
+    return out
+
+
+def c10_boundary():
+    """The trend flag at the significance boundary: p < 0.05 <=> |Z| > ndtri(0.975) = 1.959964; series on both sides within 1e-3."""
+    from hdc.algo.ops import stats
+    bad = []
+    cases = _c10_boundary_series()
+    for vals, dz in cases:
+        for sign in (1, -1):
+            x = np.array([sign * v for v in vals], dtype="int16")
+            got = stats.mann_kendall_trend_1d(x)
+            ref = _mk_reference(list(x))
+            if abs(ref[1] - 0.05) < 1e-12:
+                continue
+            if int(got[3]) != int(ref[3]) or abs(float(got[1]) - ref[1]) > 1e-6:
+                bad.append({"n": len(vals), "z_minus_critical": dz, "sign": sign, "got": [float(g) for g in got], "expected": list(ref), "series": [int(v) for v in x]})
+    return {"violates": bool(bad), "cases": len(cases), "bad": bad[:3]}
+
+
+def c10_accessor(nodata):
+    """mktrend through the accessor: ordinary pixels vs the reference; a pixel that is entirely nodata -> (nodata, nodata, nodata, -2)."""
+    import xarray as xr
+    import pandas as pd
+    import hdc.algo  # noqa
+    rng = np.random.default_rng(5)
+    T = 12
+    bad = []
+    for dtype in ("int16", "float32"):
+        cube = rng.integers(1, 200, size=(T, 2, 2)).astype(dtype)
+        attrs = {}
+        if nodata is not None:
+            cube[:, 0, 0] = nodata
+            attrs = {"nodata": nodata}
+        da = xr.DataArray(cube, dims=("time", "y", "x"), coords={"time": pd.date_range("2000-01-01", periods=T)}, attrs=attrs)
+        try:
+            res = da.hdc.algo.mktrend()
+        except Exception as e:  # noqa
+            return {"violates": True, "raised": f"{type(e).__name__}: {e}"[:200]}
+        for (r, c) in ((0, 0), (0, 1), (1, 0), (1, 1)):
+            got = [float(res[k].values[r, c]) for k in ("tau", "pvalue", "slope", "trend")]
+            if nodata is not None and (r, c) == (0, 0):
+                nd32 = float(np.float32(nodata))
+                if not (got[0] == nd32 and got[1] == nd32 and got[2] == nd32 and got[3] == -2):
+                    bad.append({"dtype": dtype, "pixel": "all nodata", "got": got, "expected": [nd32, nd32, nd32, -2]})
+                continue
+            ref = _mk_reference(list(cube[:, r, c]))
+            if any(abs(g - x) > 1e-5 * max(1.0, abs(x)) for g, x in zip(got, ref)):
+                bad.append({"dtype": dtype, "pixel": [r, c], "got": got, "expected": list(ref)})
+    return {"violates": bool(bad), "bad": bad[:3]}
+
+
 def c10_mk(kind, data, nodata=None):
+    if kind == "accessor":
+        return c10_accessor(nodata)
+    if kind == "boundary":
+        return c10_boundary()
     from hdc.algo.ops import stats
     x = np.array(data, dtype="int16")
     if kind in ("parts", "1d"):
@@ -1031,6 +1130,15 @@ def c06_relations(kind, y=None, w=None, lam=None, c=0, a=0, b=0, kernel=None, re
             if relation == "linear":
                 if np.max(np.abs(o0 - np.round(s))) > 1:
                     return {"violates": True, "why": "linear series not returned unchanged", "y": y0, "out": o0}
+                # the same line with a placeholder far away from it (a placeholder next to the line hides a gap that was not filled)
+                far = float(np.min(s) - 5000) if np.min(s) - 5000 > -32000 else float(np.max(s) + 5000)
+                yf = np.where(vm, s, far).astype("float64")
+                try:
+                    of, _ = _run_smoother(kernel, yf, far, **kw)
+                except Exception as e:  # noqa
+                    return {"violates": True, "why": f"raised {type(e).__name__}"}
+                if np.max(np.abs(of - np.round(s))) > 1:
+                    return {"violates": True, "why": "linear series (gaps included) not returned as the line", "y": yf, "out": of}
                 continue
             if relation == "reversal":
                 o1, l1_ = _run_smoother(kernel, y0[::-1].copy(), nodata, **kw)
@@ -1449,6 +1557,52 @@ def c08_spi(entry, pixel, nodata, window=None, groups=None, cal=None, shape="mod
                 probs.append(f"grouped driver, outlier {outlier}: observation {obs[a]} -> {vals[a]} but larger observation {obs[a + 1]} -> {vals[a + 1]}")
                 break
     return {"violates": bool(probs), "why": probs[:6]}
+
+
+def c08_accessor_nodata(grouped, arg, attr):
+    """spi through the accessor with the cells marked by the resolved nodata value (argument if given, else attribute): marked cells must
+    come back marked, nothing may raise, the other cells must match the SciPy reference."""
+    import xarray as xr
+    import pandas as pd
+    import hdc.algo  # noqa
+    rng = np.random.default_rng(8)
+    T = 24
+    nd = arg if arg is not None else attr
+    base = np.round(rng.gamma(2.0, 40.0, size=(T, 2, 2))).astype("int64") + 1
+    for v in (nd, attr if attr is not None else nd):
+        base[base == v] += 1
+    cube = base.copy()
+    marks = [(3, 0, 0), (10, 0, 0), (17, 1, 1)]
+    for m in marks:
+        cube[m] = nd
+    attrs = {} if attr is None else {"nodata": attr}
+    da = xr.DataArray(cube.astype("int16"), dims=("time", "y", "x"), coords={"time": pd.date_range("2000-01-01", periods=T, freq="MS")}, attrs=attrs)
+    kw = {}
+    if arg is not None:
+        kw["nodata"] = arg
+    if grouped:
+        kw["groups"] = [i % 2 for i in range(T)]
+    try:
+        res = da.hdc.algo.spi(**kw).transpose("time", "y", "x").values
+    except Exception as e:  # noqa
+        return {"violates": True, "raised": f"{type(e).__name__}: {e}"[:200], "arg": arg, "attr": attr}
+    bad = []
+    for m in marks:
+        if res[m] != nd:
+            bad.append({"cell": list(m), "got": int(res[m]), "expected_nodata": nd})
+    for (r, c) in ((0, 0), (0, 1), (1, 1)):
+        series = cube[:, r, c]
+        if grouped:
+            for g in (0, 1):
+                idx = np.arange(T)[np.arange(T) % 2 == g]
+                b = _spi_compare(res[idx, r, c], _spi_reference(series[idx], nd, 0, len(idx)), nd)
+                if b:
+                    bad.append({"pixel": [r, c], "group": g, "bad": b[:2]})
+        else:
+            b = _spi_compare(res[:, r, c], _spi_reference(series, nd, 0, T), nd)
+            if b:
+                bad.append({"pixel": [r, c], "bad": b[:2]})
+    return {"violates": bool(bad), "bad": bad[:4], "arg": arg, "attr": attr}
 
 
 # ------------------------------------------------------------------ C09
